@@ -29,6 +29,19 @@ fn chars_sx(s: &str) -> Sx {
   Sx::atoms(s.chars().map(|c| c as u64))
 }
 
+/// meta.jsonl is split into lines by Python's str.splitlines(), which also breaks at U+0085,
+/// U+2028 and U+2029 (serde_json escapes the C0 controls only): show those three escaped
+fn show(s: &str) -> String {
+  let mut out = String::new();
+  for c in s.chars() {
+    match c {
+      '\u{85}' | '\u{2028}' | '\u{2029}' => out.push_str(&format!("\\u{{{:x}}}", c as u32)),
+      _ => out.push(c),
+    }
+  }
+  out
+}
+
 fn catch<T>(f: impl FnOnce() -> T) -> Option<T> {
   std::panic::catch_unwind(std::panic::AssertUnwindSafe(f)).ok()
 }
@@ -122,7 +135,7 @@ fn positions_case(rng: &mut Rng, n_texts: usize, exhaustive: bool) -> Case {
       dist.push(("pos_texts_with_astral".into(), 1));
     }
     if sample.is_empty() {
-      sample = t.clone();
+      sample = show(&t);
     }
     texts.push(chars_sx(&t));
   }
@@ -434,7 +447,7 @@ fn recogniser_case(rng: &mut Rng, id: usize, n: usize) -> Case {
       hits += 1;
     }
     if sample.len() < 3 {
-      sample.push(t.clone());
+      sample.push(show(&t));
     }
     texts.push(chars_sx(&t));
     obs.push(r);
@@ -865,7 +878,7 @@ fn analysis_case(sc: &SourceCase) -> Case {
   if text.chars().any(|c| c.len_utf8() == 4) {
     dist.push(("src_astral".into(), 1));
   }
-  let shown: String = text.chars().take(600).collect();
+  let shown: String = show(&text.chars().take(600).collect::<String>());
   Case {
     input,
     obs: Sx::L(obs),
